@@ -202,7 +202,8 @@ PROPS = {
                        'explorer objects are not mutated within a cycle (value semantics; validated by the differential run)',
                        'time.Now() drift during the run is far below the idle-age margins used by the generator'],
     'engines': [('coord', 1200, 24000, ['-propok', 'c05_case', '-shardsize', '100']),
-                ('loop', 80, 2000, ['-shardsize', '10', '-propok', 'c05_loop_case'])],
+                ('loop', 80, 2000, ['-shardsize', '10', '-propok', 'c05_loop_case']),
+                ('sidecar', 150, 3000, ['-propok', 'c05_sidecar_case'])],
     'level_note': 'Trusted: Coq kernel; hand-written cycle model tied to the Go code by differential runs under all schedules; closed-loop World '
                   'model validated in lock step against the real coordinator + real sidecars; generated constants; Go harness and driver.',
     'level_text': "Proof: one-cycle hand-over theorem with the README's literal 3 (needs the generated constant min_wait = 3; the obligation breaks "
@@ -210,7 +211,9 @@ PROPS = {
                   '(C05_no_gap_cycle / C05_no_gap_history): for every history of cycles with ANY faults under ANY schedule, scrape rounds, ticks '
                   'and sidecar restarts, a discovered target that some sidecar holds is held by some sidecar after every step (composition of '
                   'C01 keeper, C08 left-alone, C07 keeps-used and C10 update semantics). The same statement is evaluated on what the REAL '
-                  'sidecars report after every step of the loop engine (c05_loop_case). Partial in one respect: "scraped" is "held by a sidecar '
+                  'sidecars report after every step of the loop engine (c05_loop_case); what the two scrape counters of the rule mean on '
+                  'the real sidecar (start at 0 for a newly assigned target, restart exactly when a move begins, +1 per scrape) is '
+                  'evaluated on the sidecar engine (c05_sidecar_case; C10_new_target / C10_kept_target are the theorems). Partial in one respect: "scraped" is "held by a sidecar '
                   'whose Prometheus was handed the target"; the scrape loop of Prometheus itself is outside the model.',
     'rule': 'one PRNG: 1-4 shards (1-6 thorough), 0-5 targets (0-7) over 1-2 jobs; each shard independently ready / status-GET fails / runtime-GET '
             'fails / hash differs with push accepted, rejected, still different, re-check failing (65% in sync); per copy state, health, scrape '
